@@ -22,7 +22,7 @@ def main():
             "evidence_file": "/verif/evidence/%s.json" % pid,
             "replay_cmd_template": "cat {path}; ./check %s --tier quick" % pid,
             "engine": "E1+E2",
-            "level_claimed": {"category": c.get("category", "other"), "text": c["text"], "design_ref": "DESIGN.md section 4, %s" % pid},
+            "level_claimed": {"category": c.get("category", "other"), "text": c["text"] + getattr(claims, "EXTRA", {}).get(pid, ""), "design_ref": "DESIGN.md section 4 and 9.0, %s" % pid},
             "level_note": c["note"],
             "technique": c["technique"],
         })
@@ -40,7 +40,7 @@ def main():
             {"name": "E1", "path": "/verif/extract", "serves_properties": [c["property_id"] for c in checks],
              "kind_free_text": "rustc_private driver (nightly) run as RUSTC_WORKSPACE_WRAPPER under cargo check: dumps THIR, MIR (resolved callees, unwind edges), ADT/trait/impl tables as JSON facts"},
             {"name": "E2", "path": "/verif/rules", "serves_properties": [c["property_id"] for c in checks],
-             "kind_free_text": "Python rule engine over the facts: pattern-matrix tables (K1), field coverage (K2), dominance / must-pass-through on MIR incl. unwind edges (K3), who-may-call (K4), sibling completeness (K5), panic inventory (K6), effect x ownership (K7)"},
+             "kind_free_text": "Python rule engine over the facts: pattern-matrix tables (K1), field coverage (K2), dominance / must-pass-through on MIR incl. unwind edges (K3), who-may-call (K4), sibling completeness (K5), panic inventory (K6), effect x ownership (K7), for-loop totality (K9), decision tables by symbolic evaluation (K10)"},
             {"name": "E3", "path": "/verif/rules/grammar.py", "serves_properties": ["C22", "C24"],
              "kind_free_text": "tokenizer for chalk-parse/src/parser.lalrpop (terminals, attribute productions, actions)"},
             {"name": "E4", "path": "/verif/witness", "serves_properties": ["C15", "C27"],
